@@ -63,6 +63,7 @@ RotProcs   == {RotName(c) : c \in Chunks}
 Procs      == Clients \cup {"flusher", "closer", "gc"} \cup RotProcs
 
 HashOf(k) == conf.hashOf[k]
+Colliding(k) == \E k2 \in Keys : k2 # k /\ HashOf(k2) = HashOf(k)
 Mut(m)    == m \in conf.mut      \* specification mutants: old behaviour of repaired defects, self-test
 
 -----------------------------------------------------------------------------
@@ -85,6 +86,8 @@ FreshGh    == [acked |-> [k \in Keys |-> 0],      \* greatest |version| acknowle
                lostAck |-> FALSE,
                kf |-> <<>>,                       \* key -> name of the known-finding mechanism it went through
                treeOnly |-> {},                   \* keys whose last version change wrote no record (C02)
+               c18bad |-> FALSE,                  \* a pass ended with a superseded record left in its range
+               c18dup |-> FALSE,                  \* ... or with a record twice
                fatal |-> FALSE]                   \* the code would have called logger.Fatalf
 
 InitMem(c0) ==
@@ -739,6 +742,231 @@ RmHint(c, j) == /\ ~up /\ Len(disk.hintf[c]) > j /\ disk.hintf[c][j + 1] # NoFil
                 /\ UNCHANGED <<conf, up, head, chk, tree, hm, ctab, bk, gc, lock, pc, loc, recs, ref, gh>>
 
 -----------------------------------------------------------------------------
+(* Garbage collection: HStore.GC / GCMgr.gc (store/gc.go).  GC takes no    *)
+(* write lock; every step below is one short critical section or one       *)
+(* file-system mutation of the code.                                       *)
+
+DiskSize(c) == IF Len(chk[c].wbuf) > 0 THEN chk[c].wbuf[1].off ELSE chk[c].size   \* getDiskFileSize
+
+\* gcCheckStart / gcCheckEnd / gcCheckRange.  Old(n): the first record of file n is older than
+\* the age limit (the only place where time enters the specification; an input).
+\* [ok, b, e] ; ok = FALSE is one of the three refusals
+RangeOf(start, end, Old(_)) ==
+  LET s0 == IF start < 0 THEN bk.nextgc ELSE start IN
+  IF start > head THEN [ok |-> FALSE, b |-> 0, e |-> 0, why |-> "start>head"]
+  ELSE LET S == {c \in s0..(head - 1) : chk[c].size > 0}
+           s == MinOf(S, head)
+           e0 == IF end < 0 \/ end >= head - 1 THEN head - 1 ELSE end
+           N == {n \in (s + 1)..(e0 + 1) : n \in Chunks /\ DiskSize(n) > 0 /\ Old(n)}
+       IN IF N = {} THEN [ok |-> FALSE, b |-> s, e |-> e0, why |-> "no file to gc"]
+          ELSE LET next == MaxOf(N, 0)
+                   E == {c \in s..(next - 1) : chk[c].size > 0}
+                   e == MaxOf(E, s - 1)
+               IN IF e < s THEN [ok |-> FALSE, b |-> s, e |-> e, why |-> "nothing to gc"]
+                  ELSE [ok |-> TRUE, b |-> s, e |-> e, why |-> ""]
+
+\* destination chunk: nearest earlier non-empty file if it is not "full", else the slot
+\* after it (if that is not the range start), else the range start itself (in place)
+Dst0(begin) ==
+  LET S == {i \in 0..(begin - 1) : chk[i].size > 0} IN
+  IF S = {} THEN begin
+  ELSE LET i == MaxOf(S, 0) IN
+       IF chk[i].size < conf.fileMax - conf.bodyMaxBlk THEN i
+       ELSE IF i < begin - 1 THEN i + 1 ELSE begin
+
+\* dataChunk.beginGCWriting(src) on chunk d: returns the new chunk record
+BeginGCW(d, src) == IF d = src THEN [chk[d] EXCEPT !.rewriting = TRUE, !.wHead = 0]
+                    ELSE [chk[d] EXCEPT !.wHead = chk[d].size]
+
+\* lay the blocks of rid over file f at block offset o (overwrite or extend)
+Overlay(f, o, rid) ==
+  LET n == recs[rid].nblk
+      len == Max2(Len(f), o + n)
+  IN [i \in 1..len |-> IF i > o /\ i <= o + n THEN [rid |-> rid, i |-> i - o - 1]
+                       ELSE IF i <= Len(f) THEN f[i] ELSE [rid |-> 0, i |-> 0]]
+
+\* dataChunk.endGCWriting on chunk d: truncate a rewritten file to what was written   (FS)
+EndGCW(ck, d, dd) ==
+  IF ck[dd].rewriting /\ ck[dd].wHead < ck[dd].size
+    THEN [chk |-> [ck EXCEPT ![dd].size = ck[dd].wHead, ![dd].rewriting = FALSE],
+          disk |-> IF ck[dd].wHead = 0 THEN [d EXCEPT !.exists[dd] = FALSE, !.data[dd] = <<>>]
+                   ELSE [d EXCEPT !.data[dd] = SubSeq(@, 1, ck[dd].wHead)]]
+    ELSE [chk |-> [ck EXCEPT ![dd].rewriting = FALSE], disk |-> d]
+
+GCUnch == UNCHANGED <<conf, up, head, lock, recs, ref, gh>>
+
+\* the pass starts (HStore.GC after its checks, `go gcMgr.gc`)
+G_Start(b, e, merge) ==
+  /\ up /\ Idle("gc")
+  /\ gc' = [NoGC EXCEPT !.begin = b, !.end = e, !.merge = merge]
+  /\ SetPc("gc", "g_register")
+  /\ UNCHANGED <<chk, tree, hm, ctab, bk, loc, disk>> /\ GCUnch
+
+G_Register ==
+  /\ pc["gc"] = "g_register"
+  /\ gc' = [gc EXCEPT !.reg = TRUE]
+  /\ SetPc("gc", "g_before")
+  /\ UNCHANGED <<chk, tree, hm, ctab, bk, loc, disk>> /\ GCUnch
+
+\* BeforeBucket (merge off): drop the merged hint, remove every tree dump               (FS)
+G_Before ==
+  /\ pc["gc"] = "g_before"
+  /\ hm' = [hm EXCEPT !.gcing = TRUE]
+  /\ disk' = [disk EXCEPT !.treef = {}]
+  /\ bk' = [bk EXCEPT !.treeID = <<0, 0>>]
+  /\ SetPc("gc", "g_dst")
+  /\ UNCHANGED <<chk, tree, ctab, gc, loc>> /\ GCUnch
+
+\* destination choice + beginGCWriting(gc.Begin); an absent destination file is created  (FS)
+G_Dst ==
+  /\ pc["gc"] = "g_dst"
+  /\ LET d == Dst0(gc.begin) IN
+     /\ gc' = [gc EXCEPT !.dst = d, !.src = gc.begin]
+     /\ chk' = [chk EXCEPT ![d] = BeginGCW(d, gc.begin)]
+     /\ disk' = [disk EXCEPT !.exists[d] = TRUE]
+  /\ SetPc("gc", "g_src")
+  /\ UNCHANGED <<tree, hm, ctab, bk, loc>> /\ GCUnch
+
+\* top of the per-file loop: cancel flag, skip empty, ClearChunk(src) hints               (FS)
+G_Src ==
+  /\ pc["gc"] = "g_src"
+  /\ IF gc.src > gc.end \/ gc.cancel
+       THEN SetPc("gc", "g_end") /\ UNCHANGED <<gc, hm, disk>>
+     ELSE IF chk[gc.src].size <= 0
+       THEN gc' = [gc EXCEPT !.src = @ + 1] /\ UNCHANGED <<pc, hm, disk>>
+     ELSE /\ hm' = [hm EXCEPT !.splits[gc.src] = <<FreshSplit>>, !.lastTS[gc.src] = FALSE]
+          /\ disk' = [disk EXCEPT !.hintf[gc.src] = <<>>]
+          /\ gc' = [gc EXCEPT !.cur = 0]
+          /\ SetPc("gc", "g_next")
+  /\ UNCHANGED <<chk, tree, ctab, bk, loc>> /\ GCUnch
+
+\* is the collision table / hint buffers covering key k?  [coll, has, c, off, vh]
+CollGC(k) ==
+  IF \E k2 \in DOMAIN ctab : HashOf(k2) = HashOf(k)
+    THEN IF Has(ctab, k) THEN [coll |-> TRUE, has |-> TRUE, c |-> ctab[k].c, off |-> ctab[k].off, vh |-> ctab[k].vh]
+         ELSE [coll |-> TRUE, has |-> FALSE, c |-> -1, off |-> 0, vh |-> 0]
+  ELSE [coll |-> FALSE, has |-> FALSE, c |-> -1, off |-> 0, vh |-> 0]
+
+\* DataStreamReader.Next on the source file + the newest-check against the tree
+G_Next ==
+  /\ pc["gc"] = "g_next"
+  /\ LET f == IF disk.exists[gc.src] THEN disk.data[gc.src] ELSE <<>>
+         n == ScanNext(f, gc.cur)
+     IN IF n[1] = 0 THEN SetPc("gc", "g_srcend") /\ gc' = gc
+        ELSE LET rid == n[1] off == n[2] r == recs[rid]
+                 sl == tree[HashOf(r.key)]
+                 found == sl # NoSlot
+                 same == found /\ sl.c = gc.src /\ sl.off = off
+                 cg == CollGC(r.key)
+                 keep == IF found
+                           THEN same \/ (cg.coll /\ (~cg.has \/ (cg.c = gc.src /\ cg.off = off)))
+                           ELSE gc.begin > 0 /\ r.ver < 0
+                 vh == IF same THEN sl.vh ELSE IF found /\ cg.coll /\ cg.has THEN cg.vh
+                       ELSE IF found THEN (IF r.ver > 0 THEN r.vh ELSE 0) ELSE 0
+                 fits == r.nblk + chk[gc.dst].wHead <= conf.fileMax
+             IN /\ gc' = [gc EXCEPT !.cur = n[3], !.rid = rid, !.oldpos = <<gc.src, off>>, !.found = found,
+                                    !.keep = keep, !.meta = [c |-> -1, off |-> 0, ver |-> r.ver, vh |-> vh],
+                                    !.released = IF keep THEN @ ELSE @ + 1]
+                /\ SetPc("gc", IF ~keep THEN "g_next" ELSE IF fits THEN "g_copy" ELSE "g_dstswitch")
+  /\ UNCHANGED <<chk, tree, hm, ctab, bk, loc, disk>> /\ GCUnch
+
+\* the destination is full: endGCWriting, trydump(dst, true), dst++, beginGCWriting(src)     (FS)
+G_DstSwitch ==
+  /\ pc["gc"] = "g_dstswitch"
+  /\ LET e == EndGCW(chk, disk, gc.dst)
+         td == TryDump(hm, e.disk, gc.dst, TRUE)
+         d2 == gc.dst + 1
+         ck2 == [e.chk EXCEPT ![d2] = IF d2 = gc.src THEN [e.chk[d2] EXCEPT !.rewriting = TRUE, !.wHead = 0]
+                                       ELSE [e.chk[d2] EXCEPT !.wHead = e.chk[d2].size]]
+     IN /\ d2 \in Chunks
+        /\ chk' = ck2 /\ hm' = td.h
+        /\ disk' = [td.d EXCEPT !.exists[d2] = TRUE]
+        /\ gc' = [gc EXCEPT !.dst = d2]
+  /\ SetPc("gc", "g_copy")
+  /\ UNCHANGED <<tree, ctab, bk, loc>> /\ GCUnch
+
+\* AppendRecordGC: the record is written at the destination's writing head and flushed      (FS)
+G_Copy ==
+  /\ pc["gc"] = "g_copy"
+  /\ LET d == gc.dst o == chk[d].wHead n == recs[gc.rid].nblk IN
+     /\ disk' = [disk EXCEPT !.data[d] = Overlay(@, o, gc.rid)]
+     /\ chk' = [chk EXCEPT ![d].wHead = o + n, ![d].size = Max2(@, o + n)]
+     /\ gc' = [gc EXCEPT !.newoff = o]
+  /\ SetPc("gc", IF gc.found THEN "g_repget" ELSE "g_hint")
+  /\ UNCHANGED <<tree, hm, ctab, bk, loc>> /\ GCUnch
+
+\* UpdateHtreePos is a get followed by a set -- two critical sections, as in the code
+G_RepointGet ==
+  /\ pc["gc"] = "g_repget"
+  /\ LET sl == tree[HashOf(recs[gc.rid].key)] IN
+     IF sl = NoSlot THEN SetPc("gc", "g_hint") /\ gc' = gc
+     ELSE SetPc("gc", "g_repset") /\ gc' = [gc EXCEPT !.meta = [@ EXCEPT !.c = sl.ver, !.off = sl.vh]]
+  /\ UNCHANGED <<chk, tree, hm, ctab, bk, loc, disk>> /\ GCUnch
+
+G_RepointSet ==
+  /\ pc["gc"] = "g_repset"
+  /\ tree' = [tree EXCEPT ![HashOf(recs[gc.rid].key)] =
+                 [c |-> gc.dst, off |-> gc.newoff, ver |-> gc.meta.c, vh |-> gc.meta.off]]
+  /\ SetPc("gc", "g_hint")
+  /\ UNCHANGED <<chk, hm, ctab, bk, gc, loc, disk>> /\ GCUnch
+
+\* hints.set(ki, meta, newPos, recsize, "gc") (+ trydump(dst,false) when the split rotated)   (FS)
+G_HintSet ==
+  /\ pc["gc"] = "g_hint"
+  /\ LET r == recs[gc.rid] k == r.key d == gc.dst
+         it == [off |-> gc.newoff, ver |-> gc.meta.ver, vh |-> gc.meta.vh]
+         hs == HintSetItem(hm.splits[d], k, it, r.nblk)
+         h1 == [hm EXCEPT !.splits[d] = hs.splits, !.lastTS[d] = TRUE]
+         td == IF hs.rotated THEN TryDump(h1, disk, d, FALSE) ELSE [h |-> h1, d |-> disk]
+     IN /\ ctab' = IF Has(ctab, k) THEN Put(ctab, k, [c |-> d, off |-> gc.newoff, ver |-> it.ver, vh |-> it.vh]) ELSE ctab
+        /\ hm' = [td.h EXCEPT !.maxChunk = Max2(@, d)]
+        /\ disk' = td.d
+  /\ SetPc("gc", "g_next")
+  /\ UNCHANGED <<chk, tree, bk, gc, loc>> /\ GCUnch
+
+\* end of one source file: Clear() it unless it is the destination; remember nextgc          (FS)
+G_SrcEnd ==
+  /\ pc["gc"] = "g_srcend"
+  /\ LET s == gc.src
+         clear == s # gc.dst
+         newgc == IF s + 1 >= bk.nextgc THEN s + 1 ELSE bk.nextgc
+     IN /\ chk' = IF clear THEN [chk EXCEPT ![s] = FreshChunk] ELSE chk
+        /\ disk' = [IF clear THEN [disk EXCEPT !.exists[s] = FALSE, !.data[s] = <<>>] ELSE disk
+                      EXCEPT !.nextgcf = IF s + 1 >= bk.nextgc THEN s + 1 ELSE @]
+        /\ bk' = [bk EXCEPT !.nextgc = newgc]
+        /\ gc' = [gc EXCEPT !.src = s + 1]
+        /\ gh' = [gh EXCEPT !.lostAck = @ \/ (clear /\ Len(chk[s].wbuf) > 0)]   \* Clear() drops a write buffer
+  /\ SetPc("gc", "g_src")
+  /\ UNCHANGED <<conf, up, head, lock, recs, ref, tree, hm, ctab, loc>>
+
+\* C18 over a disk image d: the records surviving in [b, e]
+Survivors(d, b, e) == UNION {{[c |-> c, rid |-> x.rid, off |-> x.off] : x \in {ScanAll(d.data[c], 0)[i] : i \in 1..Len(ScanAll(d.data[c], 0))}} :
+                             c \in {c \in b..e : c \in Chunks /\ d.exists[c]}}
+Superseded(rid) == \E r2 \in (rid + 1)..Len(recs) : recs[r2].key = recs[rid].key
+\* known finding F7: a superseded tombstone of a key absent from the (rebuilt) tree is kept when begin > 0
+F7Case(rid, b) == recs[rid].ver < 0 /\ tree[HashOf(recs[rid].key)] = NoSlot /\ b > 0
+
+\* deferred: endGCWriting (truncate the rewritten file), trydump(dst, true), unregister      (FS)
+G_End ==
+  /\ pc["gc"] = "g_end"
+  /\ LET e == EndGCW(chk, disk, gc.dst)
+         td == TryDump(hm, e.disk, gc.dst, TRUE)
+         S == {x \in Survivors(td.d, gc.begin, gc.end) : ~Colliding(recs[x.rid].key)}
+     IN /\ chk' = e.chk /\ disk' = td.d /\ hm' = [td.h EXCEPT !.gcing = FALSE]
+        /\ gh' = IF gc.cancel THEN gh
+                 ELSE [gh EXCEPT !.c18bad = @ \/ (\E x \in S : Superseded(x.rid) /\ ~(Mut("KF7") /\ F7Case(x.rid, gc.begin))),
+                                 !.c18dup = @ \/ (\E x, y \in S : x # y /\ recs[x.rid].key = recs[y.rid].key /\ ~Superseded(x.rid) /\ ~Superseded(y.rid))]
+  /\ gc' = [gc EXCEPT !.reg = FALSE]
+  /\ SetPc("gc", "idle")
+  /\ UNCHANGED <<tree, ctab, bk, loc, conf, up, head, lock, recs, ref>>
+
+G_Cancel == /\ gc.reg /\ ~gc.cancel /\ gc' = [gc EXCEPT !.cancel = TRUE]
+            /\ UNCHANGED <<chk, tree, hm, ctab, bk, loc, disk, pc>> /\ GCUnch
+
+GCStep == G_Register \/ G_Before \/ G_Dst \/ G_Src \/ G_Next \/ G_DstSwitch \/ G_Copy
+          \/ G_RepointGet \/ G_RepointSet \/ G_HintSet \/ G_SrcEnd \/ G_End
+
+-----------------------------------------------------------------------------
 (* Scheduling.  A "start" step begins an operation or lets a spawned       *)
 (* goroutine run; sequential configurations allow it only when nothing     *)
 (* else is in progress (run to completion), free ones always.              *)
@@ -755,12 +983,10 @@ FlushStep(f) == F_Lock(f) \/ F_Snap(f) \/ F_Write(f) \/ F_Detach(f) \/ F_End(f)
 CloseStep == CL_Pick \/ CL_Ctab \/ CL_Hints \/ CL_RmTree \/ CL_Tree \/ Exit
 
 \* every non-start step of every process
-Continue == (\E p \in Clients : ClientStep(p)) \/ (\E f \in FlushProcs : FlushStep(f)) \/ CloseStep
+Continue == (\E p \in Clients : ClientStep(p)) \/ (\E f \in FlushProcs : FlushStep(f)) \/ CloseStep \/ GCStep
 
 -----------------------------------------------------------------------------
 (* Properties over the specification state.                                *)
-
-Colliding(k) == \E k2 \in Keys : k2 # k /\ HashOf(k2) = HashOf(k)
 
 \* the complete read path evaluated in the current state (no side effects)
 SpecRead(k) ==
@@ -793,6 +1019,8 @@ C13_ReadMap == (up /\ Quiet) => \A k \in Keys : Colliding(k) => Agrees(k, SpecRe
 NoFatal     == ~gh.fatal
 C04_Distinct == ~gh.dup /\ ~gh.stale
 C02_NoLostAck == ~gh.lostAck
+C18_OnlyCurrent == ~gh.c18bad
+C18_Once == ~gh.c18dup
 
 TypeOK ==
   /\ head \in Chunks
